@@ -516,6 +516,10 @@ func (in *c11Inst) computeKey(o *c11Obs) string {
 	sort.Strings(cs)
 	fmt.Fprintf(&sb, "circuits%v closed=%v phase=%s | ", cs, in.relayClosed, now.Sub(sy.t0)%c11Tick)
 	sb.WriteString(o.String())
+	// fields a later version adds to the relay or its constraints join the key (see seqmc.ExtraFields)
+	sb.WriteString(seqmc.ExtraFields(sy.relay, "ctx", "cancel", "reservationAddrFilter", "host", "rc", "acl", "constraints", "scope", "notifiee",
+		"mx", "rsvp", "conns", "closed", "selfAddr", "metricsTracer"))
+	sb.WriteString(seqmc.ExtraFields(sy.relay.constraints, "rc", "mutex", "total", "ips", "asns"))
 	return sb.String()
 }
 
